@@ -498,6 +498,10 @@ func (e *Engine) mapOp(n *Node, op *Op) error {
 	case "mpop":
 		seen := map[string]bool{}
 		var ferr error
+		var order []string
+		if e.Or.PopOrder {
+			order = e.expectedOrder(n, m.Seed())
+		}
 		err := m.PopIterate(func(ks, vs atree.Storable) {
 			if ferr != nil {
 				return
@@ -516,6 +520,12 @@ func (e *Engine) mapOp(n *Node, op *Op) error {
 			if !ok || seen[ck] {
 				ferr = e.viol("PopIterate yields key %s which is absent from the model or repeated", short(ck))
 				return
+			}
+			if order != nil {
+				if want := order[len(order)-1-len(seen)]; want != ck {
+					ferr = e.viol("PopIterate yields key %s at reverse position %d, reverse canonical order expects %s", short(ck), len(seen), short(want))
+					return
+				}
 			}
 			seen[ck] = true
 			if err := e.dispose(ks); err != nil {
